@@ -3,6 +3,7 @@ fairness of the cycle thread) + two real threads on the real DebugControl / Runt
 ST_DEBUG_TRACE lines are validated against the nondeterministic trace specification."""
 import json
 
+from checks.dapstop import dap_stage
 from common import (OUT, Report, ToolError, build_harness, digest, read_ndjson, run_tlc, seed, split_runs,
                     tpv, validate_trace)
 
@@ -48,6 +49,10 @@ def run(prop, tier, replay):
     rep = Report(prop, tier, "model_checking")
     build_harness()
     mc = {"distinct": 0, "generated": 0}
+    if replay and json.loads(open(replay).read())["replay"].get("stage") == "dap":
+        # a violation of the DAP adapter stage: re-validate the recorded run only
+        dap = dap_stage(rep, tier, work / "dap", replay_run=json.loads(open(replay).read())["replay"]["trace"])
+        return rep.finish(dict(dap, states=dap["dap_trace_validation_states"] or 1, transitions=1, evaluations=1, exhaustive=False))
     if replay:
         runs = [json.loads(open(replay).read())["replay"]["trace"]]
     else:
@@ -69,6 +74,8 @@ def run(prop, tier, replay):
             key = f"unexplained:{ev['a']}:" + "+".join(ev.get("stops", []) or [ev.get("kind", "")])
         rep.violation(key, {"trace": r, "first_unmatched_event_index": k, "event": ev},
                       f"{r[0]['mode']} run: event {k} ({ev['a']}) is not a step of DebugControl: {json.dumps(ev)[:200]}")
+    # second stage: the DAP adapter layer (StopCoordinator, run-control handlers); keys prefixed "dap:"
+    dap = {} if replay else dap_stage(rep, tier, work / "dap")
     allrows = [e for r in runs for e in r]
     stops = sum(len(e.get("stops", [])) for e in allrows)
     waits = sum(1 for e in allrows if e.get("end") == "wait")
@@ -86,8 +93,14 @@ def run(prop, tier, replay):
         "samples": [runs[0][:12]],
         "exhaustive": False,
     }
+    cov.update(dap)
     return rep.finish(cov, assumptions=[
         "the runtime's ST_DEBUG_TRACE lines are emitted under the DebugState mutex (linearization points); a line that no longer parses is a tool error",
         "which breakpoint set a SetBreakpoints call installed and when set_current_thread ran are not logged: TLC infers them",
         "StepIn issued while running, Breakpoint stops inside a callee during step-over/out: not constrained (see DESIGN C17)",
-        "liveness (NoWedge) is checked on the model; on the code a run counts as wedged only after 30 s of repeated Continue"])
+        "liveness (NoWedge) is checked on the model; on the code a run counts as wedged only after 30 s of repeated Continue",
+        "DAP stage: the adapter's transcript and the runtime's trace lines share one O_APPEND file, whose order is taken as the order of the logged critical sections; "
+        "the pause_expected accesses, the pause handler's look at the mode and the generation comparison are not logged: TLC places them",
+        "DAP stage: NoLostStop / NoStoppedAfterResume are demanded of clients that resume only what was reported stopped (pause and setBreakpoints at any time); "
+        "hostile request sequences are judged on answers, duplicates, the coordinator's decision rule, resumption and exit only",
+        "DAP stage: the stop gate leaves no trace and is checked on the model only; a request counts as unanswered / a pause as not honoured after 20 s"])
